@@ -25,6 +25,7 @@ type Env struct {
 	callee      *ssa.Function // when evaluating a callee's contract at a call site
 	pkg         *types.Package
 	noProgram   bool // callee env: program variables of the caller are not visible
+	callArgs    []*Val // at call "...": the arguments of the matched call, arg(i)
 	entryOnly   bool // inside old(): only parameters, globals and ghost state are visible
 	bodyLocals  bool // names may denote values defined inside the loop body (step / exits / at clauses)
 }
@@ -759,6 +760,15 @@ func (vc *FnVC) evalCall(env *Env, c ECall) (*Val, error) {
 		}
 		a, b := vc.coerceNil(args[1], args[2])
 		return &Val{T: a.T, S: smtIte(args[0].S, a.S, b.S)}, nil
+	case "arg": // arg(i): in an `at call` clause, the i-th argument of the matched call
+		if len(c.Args) != 1 {
+			return nil, fmt.Errorf("arg(i)")
+		}
+		ix, ok := c.Args[0].(EInt)
+		if !ok || int(ix.V) >= len(env.callArgs) {
+			return nil, fmt.Errorf("arg(%s): no such call argument here", c.Args[0])
+		}
+		return env.callArgs[ix.V], nil
 	case "prev": // prev(e): in a step clause, e evaluated with the loop variables at the start of the iteration
 		if len(c.Args) != 1 || env.loop == nil {
 			return nil, fmt.Errorf("prev(e) is only meaningful in a loop step clause")
